@@ -5,6 +5,8 @@ import RbV.Lemmas.Wavelet
 import RbV.Lemmas.Bytes8
 import RbV.Gen.Dna2Int
 import RbV.Thm.GenSrcRankSelect
+import RbV.Thm.GenSrcWavelet
+import RbV.Thm.GenSrcWaveletCompose
 /-!
 # C17 — rank/select and wavelet-matrix queries equal naive counting
 
@@ -280,6 +282,108 @@ example : Gen.SrcRankSelect.superblocks (σ := SbRank) blockByte List.length (fu
     SbRank.first SbRank.some SbRank.val true 40 0 exBits = Rs.Res.panic := by decide
 
 end rankselect_source
+
+/-! ## wavelet matrix: function bodies translated from the source text, and the composition wavelet ∘ rank/select
+
+`RbV/Gen/SrcWavelet.lean` (regenerated from `src/data_structures/wavelet_matrix.rs` on every `./check C17`):
+`WaveletMatrix::check_overflow`, `prank`, `rank`.  The levels' `RankSelect::rank_0/1` are abstract (possibly panicking)
+functions there; `LevelsOk` is what the wavelet code assumes about them.  Proofs: `RbV/Thm/GenSrcWavelet.lean`,
+`RbV/Thm/GenSrcWaveletCompose.lean`. -/
+section wavelet_source
+open RbV.Model.RankSelect RbV.Model.Wavelet RbV.Thm.GenSrcWavelet RbV.Thm.GenSrcWaveletCompose
+
+/-- **`WaveletMatrix::prank`, as written, is the model's `prank`** (existing level, `p ≤ width`, `val` ∈ {0, 1}) -/
+theorem wavelet_prank_source_eq_model {ρ : Type} (rank0 rank1 : ρ → Nat → Rs.Res (Option Nat)) (W H : Nat)
+    (zeros : List Nat) (levels : List ρ) (lvs : List Level) (hok : LevelsOk rank0 rank1 W zeros levels lvs)
+    (level : Nat) (lv : Level) (hl : lvs[level]? = some lv) (b : Bool) (p : Nat) (hp : p ≤ W) :
+    Gen.SrcWavelet.prank rank0 rank1 W H zeros levels level p (if b then 1 else 0)
+      = Rs.Res.ok (Model.Wavelet.prank (rkSpec lvs level) p b) :=
+  prank_eq_model rank0 rank1 W H zeros levels lvs hok level lv hl b p hp
+
+/-- **`WaveletMatrix::rank`, as written, is the model's `rank`** on every structure satisfying `LevelsOk`, for every
+in-range `p`; out-of-range `p` is refused (`check_overflow`, translated too) -/
+theorem wavelet_rank_source_eq_model {ρ : Type} (rank0 rank1 : ρ → Nat → Rs.Res (Option Nat)) (W : Nat)
+    (hW : W < 2 ^ 63) (zeros : List Nat) (levels : List ρ) (lvs : List Level)
+    (hok : LevelsOk rank0 rank1 W zeros levels lvs) (hH : lvs.length ≤ 8) (table : List Nat) (c : Nat)
+    (hc : c < table.length) (p : Nat) :
+    (p < W → Gen.SrcWavelet.rank rank0 rank1 W lvs.length zeros levels table c p
+      = Rs.Res.ok (Model.Wavelet.rank (fun v => table.getD v 0) (rkSpec lvs) lvs c p)) ∧
+    (W ≤ p → Gen.SrcWavelet.rank rank0 rank1 W lvs.length zeros levels table c p = Rs.Res.panic) :=
+  ⟨rank_eq_model rank0 rank1 W hW zeros levels lvs hok hH table c hc p,
+   rank_oob_panics rank0 rank1 W lvs.length zeros levels table c p⟩
+
+/-- **composition (mirror models)**: the wavelet mirror model run over the *RankSelect mirror model* of every level
+(`rank1` / `rank0` with the `superblocks` table of `RankSelect::new(bits, 1)`) — instead of the declarative rank — returns
+`occ`.  One statement for `WaveletMatrix::rank` ∘ `RankSelect::rank_0/1` at model level (DESIGN §13 row C17). -/
+theorem wavelet_rank_over_rankselect_model (text : List Nat) (c p : Nat)
+    (hp : p < text.length) (hc : c ∈ dnaSyms) (htext : ∀ x ∈ text, x ∈ dnaSyms) :
+    Model.Wavelet.rank (fun v => Gen.Dna2Int.table.getD v 0)
+        (fun level b i => match (build (fun v => Gen.Dna2Int.table.getD v 0) text)[level]? with
+          | some lv => if b then rank1 lv.bits.length (1 * 32) (getBlock lv.bits)
+                                  (superblocks true lv.bits.length (1 * 32) (getBlock lv.bits)) i
+                       else rank0 lv.bits.length (1 * 32) (getBlock lv.bits)
+                                  (superblocks true lv.bits.length (1 * 32) (getBlock lv.bits)) i
+          | none => none)
+        (build (fun v => Gen.Dna2Int.table.getD v 0) text) c p
+      = occ text c p := by
+  have hrk : (fun level b i => match (build (fun v => Gen.Dna2Int.table.getD v 0) text)[level]? with
+          | some lv => if b then rank1 lv.bits.length (1 * 32) (getBlock lv.bits)
+                                  (superblocks true lv.bits.length (1 * 32) (getBlock lv.bits)) i
+                       else rank0 lv.bits.length (1 * 32) (getBlock lv.bits)
+                                  (superblocks true lv.bits.length (1 * 32) (getBlock lv.bits)) i
+          | none => none)
+      = rkSpec (build (fun v => Gen.Dna2Int.table.getD v 0) text) := by
+    funext level b i
+    unfold rkSpec
+    cases (build (fun v => Gen.Dna2Int.table.getD v 0) text)[level]? with
+    | none => rfl
+    | some lv =>
+      cases b with
+      | true => simpa using (rank_correct lv.bits 1 (by omega) i).1
+      | false => simpa using (rank_correct lv.bits 1 (by omega) i).2
+  rw [hrk]
+  exact wavelet_rank_correct_generated text c p hp hc htext
+
+/-- **composition (translated code)**: `WaveletMatrix::rank` *as written*, over levels whose `rank_0` / `rank_1` are
+`RankSelect::rank_0` / `rank_1` *as written* (on the bit vectors and 1-superblock tables of the levels the mirror model of
+`WaveletMatrix::new` builds, with the `DNA2INT` table extracted on this run) returns the number of occurrences of `c` in
+`text[0..=p]` — for every text over A,C,G,T,N,$ of fewer than 2^60 symbols, every such `c`, every `p < |text|`; no
+`unwrap`, index, shift or arithmetic operation of either function panics. -/
+theorem wavelet_rank_source_composed (bl : List Bool → Nat) (cd8 : Nat → Nat) (text : List Nat)
+    (hn : text.length < 2 ^ 60) (c p : Nat) (hp : p < text.length) (hc : c ∈ dnaSyms)
+    (htext : ∀ x ∈ text, x ∈ dnaSyms) :
+    Gen.SrcWavelet.rank (srcRank0 bl cd8) (srcRank1 bl cd8) text.length 3
+        ((build (fun v => Gen.Dna2Int.table.getD v 0) text).map (·.zeros))
+        ((build (fun v => Gen.Dna2Int.table.getD v 0) text).map mkRS) Gen.Dna2Int.table c p
+      = Rs.Res.ok (occ text c p) := by
+  have hok := levels_ok bl cd8 (fun v => Gen.Dna2Int.table.getD v 0) 3 text hn
+  have hlen : (buildLevels (fun v => Gen.Dna2Int.table.getD v 0) 3 text).length = 3 :=
+    RbV.Lemmas.Wavelet.length_buildLevels _ 3 text
+  have htab : Gen.Dna2Int.table.length = 128 := (tableOk_sound _ dna2int_generated_ok).1
+  have hc128 : c < Gen.Dna2Int.table.length := by
+    rw [htab]
+    have : ∀ a ∈ dnaSyms, a < 128 := by decide
+    exact this c hc
+  have h := rank_eq_model (srcRank0 bl cd8) (srcRank1 bl cd8) text.length (by omega) _ _ _ hok (by rw [hlen]; omega)
+    Gen.Dna2Int.table c hc128 p hp
+  rw [hlen] at h
+  show Gen.SrcWavelet.rank (srcRank0 bl cd8) (srcRank1 bl cd8) text.length 3
+    ((buildLevels (fun v => Gen.Dna2Int.table.getD v 0) 3 text).map (·.zeros))
+    ((buildLevels (fun v => Gen.Dna2Int.table.getD v 0) 3 text).map mkRS) Gen.Dna2Int.table c p = _
+  rw [h]
+  exact congrArg Rs.Res.ok (wavelet_rank_correct_generated text c p hp hc htext)
+
+-- non-vacuity: the text "ACN$NA"; translated `rank('N', 4)` over translated `rank_0/1` = 2
+example : Gen.SrcWavelet.rank (srcRank0 (fun _ => 0) (fun x => (x + 7) / 8)) (srcRank1 (fun _ => 0) (fun x => (x + 7) / 8)) 6 3
+    ((build (fun v => Gen.Dna2Int.table.getD v 0) [65, 67, 78, 36, 78, 65]).map (·.zeros))
+    ((build (fun v => Gen.Dna2Int.table.getD v 0) [65, 67, 78, 36, 78, 65]).map mkRS) Gen.Dna2Int.table 78 4
+    = Rs.Res.ok 2 := by decide
+example : Gen.SrcWavelet.rank (srcRank0 (fun _ => 0) (fun x => (x + 7) / 8)) (srcRank1 (fun _ => 0) (fun x => (x + 7) / 8)) 6 3
+    ((build (fun v => Gen.Dna2Int.table.getD v 0) [65, 67, 78, 36, 78, 65]).map (·.zeros))
+    ((build (fun v => Gen.Dna2Int.table.getD v 0) [65, 67, 78, 36, 78, 65]).map mkRS) Gen.Dna2Int.table 78 6
+    = Rs.Res.panic := by decide
+
+end wavelet_source
 
 example : selectRef true [false, true, true, false, true] 3 = some 4 := by decide
 example : rankRef false [false, true, true, false, true] 3 = some 2 := by decide
